@@ -13,6 +13,7 @@ import TgModel.Lemmas.C04AccLemmas
 import TgModel.Lemmas.C04ConvLemmas
 import TgModel.Lemmas.C04ConvStmt
 import TgModel.Lemmas.C04ConvVal
+import TgModel.Lemmas.C04TreeTop
 import TgModel.Lemmas.C04Findings
 
 namespace Tg.C04
@@ -486,5 +487,124 @@ example : Doc.Sentence (PState.init converseSample3).kinds :=
   C04L.sentence_on_input converseSample3 (by decide +kernel) (by decide +kernel) (by decide +kernel)
 example : Doc.Sentence (PState.init converseSample4).kinds :=
   C04L.sentence_on_input converseSample4 (by decide +kernel) (by decide +kernel) (by decide +kernel)
+
+/-! ### the converse at the top, with the value conditions asked of the tree
+
+`source_file_converse_shape` asks the value shape of the whole input and thereby also rules out an empty
+`{ }` body or block and the documented trailing comma of a slice.  Here the value conditions are asked where
+they belong — of the `Value` and `List` nodes of the parse tree (`C04L.treeOK r.tree`, decidable):
+* every `Value` node: its proper leaves (not trivia) contain none of `C04L.valuePatterns0` — `StrVal StrVal`,
+  `< code`, `[ ]`, `{ }`, `( )`, `, }`, `, )`, `] <`  (the value patterns without `, ]`);
+* every `List` node: its proper leaves do not end in `, ]` (a list literal with a trailing comma).
+Nothing is asked of the braces of record bodies, statement blocks and `defset`, nor of `x[1,]`.
+
+How: the lemmas of the statement and value converse are proved once more relative to a context (`C04L.RunCtx`:
+a predicate `I` every run preserves, a predicate `J` every run reflects); in the application `J s` = "every
+node in the builder of `s` passes `C04L.nodeOK`", which holds at the end by hypothesis and therefore at
+every earlier state (`C04L.bld_exec`: a subtree once built stays in the builder), and a run of `value` /
+`name_value` / `list_` leaves a node whose proper leaves are the consumed token kinds (`C04L.node_built`). -/
+
+example : C04L.valuePatterns0 =
+    [[.StrVal, .StrVal], [.Less, .Code], [.LSquare, .RSquare], [.LBrace, .RBrace], [.LParen, .RParen],
+     [.Comma, .RBrace], [.Comma, .RParen], [.RSquare, .Less]] := rfl
+
+/-- **converse at the top, values checked in the tree**: if `parse` accepts the input without any error,
+the token kinds have the statement shape, and every `Value` / `List` node of the tree passes the node
+check, then the token kinds are a sentence of the documented grammar -/
+theorem source_file_converse_values (input : List Char) (r : ParseResult) (h : parse input = .ok r)
+    (herr : r.errors = []) (hshape : C04L.Shape (PState.init input).kinds) (htree : C04L.treeOK r.tree = true) :
+    Doc.Sentence (PState.init input).kinds :=
+  C04L.source_file_converse_values input r h herr hshape htree
+
+/-- what the tree check is: every subtree passes `nodeOK`, which looks at `Value` and `List` nodes only -/
+theorem treeOK_iff (t : Tree) : C04L.treeOK t = true ↔ ∀ x ∈ C04L.subs t, C04L.nodeOK x = true := by
+  simp [C04L.treeOK]
+
+/-- every run of the parser model keeps what it has built, and the proper leaves of the builder follow the
+token kinds it consumes -/
+theorem builder_follows_tokens (input : List Char) (fuel : Nat) (p : Prog) (s s' : PState) (hinv : Inv input s)
+    (h : exec defs Tables.recoverTokens fuel p s = .ok s') :
+    (∀ t, C04L.Occ t s.b → C04L.Occ t s'.b) ∧ (plainK s.cur → C04L.tot s' = C04L.tot s) :=
+  ⟨(C04L.bld_exec defs Tables.recoverTokens input fuel p s s' hinv h).occ,
+   fun hp => ((C04L.bld_exec defs Tables.recoverTokens input fuel p s s' hinv h).lk hp).2⟩
+
+/-- now within the hypotheses (kernel evaluation of the parser model and of the checks): empty bodies and
+blocks, and the trailing comma of a slice -/
+example : Doc.Sentence (PState.init "class A { }".toList).kinds :=
+  C04L.sentence_of_tree _ (by decide +kernel) (by decide +kernel)
+example : Doc.Sentence (PState.init "defset list<A> S = { }".toList).kinds :=
+  C04L.sentence_of_tree _ (by decide +kernel) (by decide +kernel)
+example : Doc.Sentence (PState.init "if 1 then { }".toList).kinds :=
+  C04L.sentence_of_tree _ (by decide +kernel) (by decide +kernel)
+example : Doc.Sentence (PState.init "def d { int x = l[1,]; }".toList).kinds :=
+  C04L.sentence_of_tree _ (by decide +kernel) (by decide +kernel)
+example : Doc.Sentence (PState.init "def d { list<int> l = [x[1,]]; }".toList).kinds :=
+  C04L.sentence_of_tree _ (by decide +kernel) (by decide +kernel)
+
+/-- …which the whole-input value shape of `source_file_converse_shape` excluded -/
+example : ¬ C04L.VShape (PState.init "class A { }".toList).kinds ∧
+    ¬ C04L.VShape (PState.init "def d { int x = l[1,]; }".toList).kinds := by constructor <;> decide +kernel
+
+/-- still outside, as they should be: accepted without error, the tree check fails -/
+example : C04L.acceptsClean "def d { list<int> l = [ ]; }".toList = true ∧
+    C04L.acceptsTreeOK "def d { list<int> l = [ ]; }".toList = false := by constructor <;> decide +kernel
+example : C04L.acceptsClean "def d { list<int> l = [1,]; }".toList = true ∧
+    C04L.acceptsTreeOK "def d { list<int> l = [1,]; }".toList = false := by constructor <;> decide +kernel
+example : C04L.acceptsClean "def d { bits<2> b = {}; }".toList = true ∧
+    C04L.acceptsTreeOK "def d { bits<2> b = {}; }".toList = false := by constructor <;> decide +kernel
+
+/-! ### negative facts, as theorems
+
+`C04L.rem n e w` lists every rest of `w` after a word of `e` (`C04L.rem_complete`: it misses no derivation of
+the documented grammar; out of fuel it answers with every suffix), so `[] ∉ rem n e w`, evaluated by the
+kernel, refutes `Doc.Derives e w` (`C04L.not_derives`). -/
+
+/-- the matcher misses nothing -/
+theorem matcher_complete (e : Doc.E) (u : List TokenKind) (h : Doc.Derives e u) (n : Nat) (rest : List TokenKind) :
+    rest ∈ C04L.rem n e (u ++ rest) :=
+  C04L.rem_complete h n rest
+
+/-- **`ValueOK` is false**: the value parser takes `[ ]` without an error (`C04L.empty_list_vw`, the run by
+kernel evaluation) and `[ ]` is not a documented `Value` (`C04L.empty_list_not_value`, by inversion of the
+documented rules: a `List` contains a `ValueList`, which is not empty) -/
+theorem valueOK_false : ¬ C04L.ValueOK :=
+  C04L.valueOK_false
+
+/-- the listed deviations where the parser takes more than the documented grammar: each text is accepted
+without any error and its token kinds are not a sentence of the documented grammar
+(`C04L.AcceptedNotDocumented text`) -/
+theorem deviation_string_concat_accepted_not_documented :
+    C04L.AcceptedNotDocumented "include \"a\" \"b\"" ∧ C04L.AcceptedNotDocumented "defvar a = \"x\" \"y\";" :=
+  C04L.deviation_string_concat_accepted_not_documented
+
+theorem deviation_type_code_accepted_not_documented :
+    C04L.AcceptedNotDocumented "class A<code c>;" ∧ C04L.AcceptedNotDocumented "def d { list<code> l; }" ∧
+    C04L.AcceptedNotDocumented "defset code x = { }" ∧ C04L.AcceptedNotDocumented "defvar a = !cast<code>(\"x\");" :=
+  C04L.deviation_type_code_accepted_not_documented
+
+theorem deviation_empty_value_list_accepted_not_documented :
+    C04L.AcceptedNotDocumented "defvar a = [];" ∧ C04L.AcceptedNotDocumented "defvar a = {};" ∧
+    C04L.AcceptedNotDocumented "defvar a = !add();" ∧ C04L.AcceptedNotDocumented "defvar a = !cond();" :=
+  C04L.deviation_empty_value_list_accepted_not_documented
+
+theorem deviation_list_type_suffix_accepted_not_documented :
+    C04L.AcceptedNotDocumented "defvar a = [1, 2]<int>;" :=
+  C04L.deviation_list_type_suffix_accepted_not_documented
+
+theorem deviation_trailing_separator_accepted_not_documented :
+    C04L.AcceptedNotDocumented "class A<int x,>;" ∧ C04L.AcceptedNotDocumented "class A<>;" ∧
+    C04L.AcceptedNotDocumented "defvar a = [1,];" ∧ C04L.AcceptedNotDocumented "defvar a = {1,};" ∧
+    C04L.AcceptedNotDocumented "defvar a = !add(1,);" ∧ C04L.AcceptedNotDocumented "defvar a = !cond(1 : 2,);" :=
+  C04L.deviation_trailing_separator_accepted_not_documented
+
+/-- what `AcceptedNotDocumented` says -/
+example (text : String) : C04L.AcceptedNotDocumented text ↔
+    ((∃ r, parse text.toList = .ok r ∧ r.errors = []) ∧ ¬ Doc.Sentence (PState.init text.toList).kinds) := Iff.rfl
+
+/-- **the converse at full strength is false** (as the forward direction is, `full_forward_false`) -/
+theorem full_converse_false : ¬ FullConverse := by
+  intro h
+  obtain ⟨⟨r, hr, he⟩, hn⟩ := C04L.deviation_list_type_suffix_accepted_not_documented
+  exact hn (h _ r hr he)
 
 end Tg.C04
